@@ -441,7 +441,7 @@ var runPoints = []string{
 	"ap.apply.before", "ap.apply.after", "ap.raftdone.after", "ap.trigger.before", "ap.trigger.after",
 	"sn.ckpt.started", "sn.ckpt.done", "sn.create.after", "ps.snapfile.after", "sn.savesnap.after", "sn.sync.after",
 	"sn.release.after", "sn.updstate.after", "sn.compact.after",
-	"ck.save.before", "ck.save.after", "ck.purge.before", "ck.purge.after",
+	"ck.cacheflush.after", "ck.save.before", "ck.save.after", "ck.purge.before", "ck.purge.after",
 	"wl.cut.rename.before", "wl.cut.after",
 }
 
